@@ -124,6 +124,12 @@ def _run_case(arg):
                     d["materialize_error"] = f"{type(e).__name__}: {e}"
             if ob.verdict == "proved" and len(out["obligations"]) < 2:
                 d["smt2_goal"] = str(ob.goal)[:400]
+            if ob.verdict == "proved" and mutant_key is None and os.environ.get("VERIF_TIER") == "thorough" and not isinstance(ob.goal, bool):
+                # independent re-check of a deterministic sample through the SMT-LIB dump: cvc5 1.0.3 and z3 4.8.12 command-line solvers
+                import zlib
+                every = int(os.environ.get("VF_CROSS_EVERY", "25"))
+                if zlib.crc32(ob.ident().encode()) % every == 0:
+                    d["cross"] = solve.cross_check_smt2(ob, timeout_s=20)
             out["obligations"].append(d)
         out["seconds"] = round(time.time() - t0, 3)
         return out
